@@ -64,14 +64,12 @@ func releaserParams(e *Env) map[*ssa.Function]map[int]bool {
 				for _, v := range released {
 					if p, isP := core.Resolve(v).(*ssa.Parameter); isP && p.Parent() == f {
 						for i, q := range f.Params {
-							if q == p {
+							if q == p && !(rel[f] != nil && rel[f][i]) && mustRelease(f, p, rel) {
 								if rel[f] == nil {
 									rel[f] = map[int]bool{}
 								}
-								if !rel[f][i] {
-									rel[f][i] = true
-									changed = true
-								}
+								rel[f][i] = true
+								changed = true
 							}
 						}
 					}
@@ -187,11 +185,11 @@ func runC12(e *Env) {
 				if !isSt || !core.IsNilConst(st.Val) || relCall == nil {
 					return
 				}
-				if _, fl, isF := core.FieldOf(st.Addr); isF && fl == "msg" && core.Dominates(relCall, st) {
-					ok = true
+				if _, fl, isF := core.FieldOf(st.Addr); isF && fl == "msg" && (core.Dominates(relCall, st) || core.Dominates(st, relCall)) {
+					ok = true // forgotten in the same critical section, before or after handing it back
 				}
 			})
-			e.R.Check(ok, "C12.R5", "udp/client.midElement.ReleaseMessage:forgets-copy", e.fpos(f), "the copy pointer is set to nil right after the release, in the same critical section", "a released copy stays referenced by the pending entry: a racing sweep or acknowledgement releases it a second time")
+			e.R.Check(ok, "C12.R5", "udp/client.midElement.ReleaseMessage:forgets-copy", e.fpos(f), "the copy pointer is set to nil in the same critical section as the release", "a released copy stays referenced by the pending entry: a racing sweep or acknowledgement releases it a second time")
 		}
 	}
 	if e.want("C12.R7") {
@@ -662,4 +660,26 @@ func hasMutexSibling(addr ssa.Value) bool {
 		}
 	}
 	return false
+}
+
+// mustRelease: every path of f from its entry to a normal return releases parameter p (directly, through a callee already known
+// to release its parameter, or by a deferred such call). A function that releases only on some paths (unless hijacked, only
+// for pings, …) is not a releaser for its callers: what happens to the message there depends on the path taken.
+func mustRelease(f *ssa.Function, p *ssa.Parameter, rel map[*ssa.Function]map[int]bool) bool {
+	isRel := func(c ssa.CallInstruction) bool {
+		v := releasedValue(c, rel)
+		if v == nil {
+			if strings.HasSuffix(core.CalleeName(c), ".ReleaseMessage") && core.NArgs(c) == 2 {
+				v = core.Arg(c, 1)
+			}
+		}
+		return v != nil && core.Resolve(v) == ssa.Value(p)
+	}
+	q := &core.PathQuery{Fn: f, Target: core.IsReturn,
+		Stop: func(in ssa.Instruction) bool {
+			c, ok := in.(*ssa.Call)
+			return ok && isRel(c)
+		},
+		DeferStop: func(d *ssa.Defer) bool { return isRel(d) }}
+	return q.Find() == nil
 }
